@@ -374,12 +374,18 @@ fn gen_kind(rng: &mut Rng, which: u64, enrs: &[Enr], with_record: Option<bool>) 
             },
         },
         _ => {
-            let s = emph_size(rng);
-            let k = emph_size(rng);
+            let (mut s, mut k) = (emph_size(rng), emph_size(rng));
+            // one handshake in five has a corner pair of sizes (both empty, one empty, both at the limit)
+            let corner = rng.chance(1, 5);
+            if corner {
+                let (a, b) = *rng.pick(&[(0usize, 0usize), (0, 0), (0, 1), (1, 0), (0, 255), (255, 0), (255, 255), (255, 1), (200, 100)]);
+                s = a;
+                k = b;
+            }
             let rec = match with_record {
                 Some(true) => true,
                 Some(false) => false,
-                None => rng.chance(1, 2),
+                None => if corner { rng.chance(1, 4) } else { rng.chance(1, 2) },
             };
             KindDesc::Handshake {
                 src_id: rid(rng),
